@@ -125,23 +125,24 @@ def check_patch_conistency(catalog: Catalog, *catalogs: Catalog, rtol: float = 0
             raise InconsistentPatchesError("patch centers are not aligned")
 
 
-def get_max_angle(
-    config: Configuration, redshift_limit: float = 0.05
-) -> AngularDistances:
+def get_max_angle(config: Configuration) -> AngularDistances:
     """
     Compute the maximum angular pair separation to expect in a correlation
     measurement.
 
     Used to determine which patch pairs need to be run through the pair counting
     function. The distance is computed from the cosmological model with the
-    largest configured scale. The redshift is either the lowest redshift bin
-    center or a lower bound of ``redshift_limit``.
+    largest configured scale. Pairs are counted with the angles evaluated at the
+    redshift bin centers and the angle of a fixed physical scale is not
+    monotonic in redshift, therefore the largest angle of all bins is used.
     """
-    min_redshift = max(config.binning.zmin, redshift_limit)
-    _, ang_max = config.scales.scales.get_angle_radian(
-        min_redshift, cosmology=config.cosmology
+    ang_max = max(
+        np.max(
+            config.scales.scales.get_angle_radian(zmid, cosmology=config.cosmology)[1]
+        )
+        for zmid in config.binning.binning.mids
     )
-    return AngularDistances(ang_max.max())
+    return AngularDistances(ang_max)
 
 
 class PatchLinkage:
